@@ -22,8 +22,11 @@ TBInit == l = 1 /\ bad = "" /\ TLCSet(42, <<>>)
 Skipping == bad # "" /\ Ev.k # "reset"
 
 \* verdicts carried by the event itself (the harness compared a value with what the real code returned)
+\* (a run that ended with a thread stuck for ever inside the code under test -- spinning on something nobody will ever change --
+\*  carries `hard`; only the checks of the properties that promise non-blocking operations count it as a verdict)
 EvBad == IF Ev.k \in {"ret", "final"} /\ "bij" \in DOMAIN Ev.x /\ ~Ev.x.bij THEN "InvBijection"
-         ELSE IF Ev.k = "panic" THEN "NoPanic" ELSE ""
+         ELSE IF Ev.k = "panic" THEN "NoPanic"
+         ELSE IF Ev.k = "final" /\ "hard" \in DOMAIN Ev.x /\ Ev.x.hard THEN "InvNoStall" ELSE ""
 Worst(a, b) == IF a # "" THEN a ELSE b
 IsNopCall == Ev.k = "call" /\ Ev.x.op = "nop"
 IsNopRet  == Ev.k = "ret" /\ Ev.fn = "nop"
